@@ -267,6 +267,12 @@ impl Sound for StreamingSound {
 				.as_amplitude();
 			let panning = self.panning.interpolated_value(time_in_chunk);
 			let playback_rate = self.playback_rate.interpolated_value(time_in_chunk);
+			// the data can also run out in the middle of a chunk: wait here
+			// too instead of playing (and consuming) frames that are not there
+			if self.frame_consumer.slots() < 2 && !self.shared.reached_end() {
+				*frame = Frame::ZERO;
+				continue;
+			}
 			let next_frames = self.next_frames();
 			let interpolated_out = interpolate_frame(
 				next_frames[0],
@@ -277,6 +283,13 @@ impl Sound for StreamingSound {
 			);
 			self.fractional_position += self.sample_rate as f64 * playback_rate.0.max(0.0) * dt;
 			while self.fractional_position >= 1.0 {
+				// keep the last buffered frame as the "previous" frame while more
+				// audio is on its way: if the ring ran empty, the next frame to
+				// arrive would be taken for the previous one and never be heard
+				if self.frame_consumer.slots() < 2 && !self.shared.reached_end() {
+					self.fractional_position = 0.0;
+					break;
+				}
 				self.fractional_position -= 1.0;
 				#[cfg(kira_verif)]
 				crate::verif::yield_point("stream.ring.pop");
